@@ -166,6 +166,25 @@ CLAIMED["C09"] = {
     "design": "DESIGN.md section 4 C09",
 }
 
+CLAIMED["C20"] = {
+    "text": "Rocq theorems about a Gallina model of every parameter cleaner (String, Number, Boolean, Path, DataType, List at any "
+            "nesting, Tuple, Data, Result with output typing and fuzziness): for every declaration, environment (working directory "
+            "or none, any file system, any program) and raw value of every kind, clean either returns a value of the documented "
+            "type (C20_typed: integers stay integers, decimals decimals, numeric text becomes the number, booleans from "
+            "true/false/0/1 forms, relative paths resolved to absolute existing ones, data-type names mapped, lists item-wise) or a "
+            "parameter error - never a raw exception (C20_errors_are_parameter_errors); cleaning a cleaned value returns it "
+            "unchanged under an absolute working directory (C20_idempotent); the outcome is a function of declaration, environment "
+            "and value only. Ties regenerated every run: exception classes caught and kind guards present in params.py (AST), all "
+            "declared parameters are of modelled classes, accepts() table from the live classes. Differential runs compare the "
+            "model with Parameter.clean over all declarations x raw kinds x working directories, with repeat, idempotence, "
+            "deep-copy and fresh-object (history) oracles.",
+    "note": "Trusted: Python's int()/float()/str() enter as oracle fields of raw values; POSIX os.path semantics modelled by hand; "
+            "purity is structural in the model (a Gallina function) and observed on the code by deep copies and by comparing a "
+            "long-lived parameter object with a fresh one.",
+    "technique": "Rocq proof (typedness, no-escape, idempotence by induction over declarations) + regenerated source facts + differential correspondence",
+    "design": "DESIGN.md section 4 C20",
+}
+
 NOT_YET = "check not built yet (planned with the same technique, see DESIGN.md section 4); not claimed in this commit"
 
 
